@@ -1,0 +1,7 @@
+//go:build !verif
+// +build !verif
+
+package graph
+
+// verifPop is a no-op unless built with the "verif" tag.
+func verifPop(v interface{}, distance int32) {}
